@@ -108,12 +108,13 @@ def handle(c):
         case = cr.get_case(cid)
         q = kmodels.build(spec)
         q.setup()
-        dirty = rnd.random() < 0.6
+        dirty = rnd.random() < 0.5
+        setup_only = (not dirty) and rnd.random() < 0.6     # load_case right after setup(), before final_setup
         if dirty:
             for nm in free:
                 q.set_val(nm, [rnd.choice([-3.5, 0.125, 9, 2.75, -1.25]) for _ in spec['init'][nm]])
             q.run_model()
-        else:
+        elif not setup_only:
             q.final_setup()
         ins, outs = names(q)
         conns = {i: q.model.get_source(i) for i in ins}
@@ -129,7 +130,8 @@ def handle(c):
             bad('load_case(%r) failed: %s: %s' % (cid, type(e).__name__, str(e)[:200]))
             continue
         stats['cases'] += 1
-        lab = 'case %r (%s) loaded into a %s problem' % (cid, case.source, 'dirty' if dirty else 'fresh')
+        lab = 'case %r (%s) loaded into a %s problem' % (cid, case.source, 'dirty' if dirty else
+                                                        'set-up (no final_setup)' if setup_only else 'fresh')
         for k, v in cout:
             stats['values'] += 1
             if not same(a_out[k], v, 0):
@@ -180,7 +182,8 @@ def handle(c):
         # the model has the units of its source (the oracle above is evaluated in every case)
         mi = q.model.get_io_metadata(iotypes=('input',), metadata_keys=['units'], return_rel_names=False)
         mo = q.model.get_io_metadata(iotypes=('output',), metadata_keys=['units'], return_rel_names=False)
-        if all(mi[k].get('units') == mo[conns[k]].get('units') for k in ins):
+        if all(mi[k].get('units') == mo[conns[k]].get('units') for k in ins) and \
+                not any(cc.get('src_idx') for cc in spec['comps']):
             out.append({'conns': sorted(conns.items()), 'cin': [[k, vid(v)] for k, v in cin],
                         'cout': [[k, vid(v)] for k, v in cout], 's': [[k, vid(b_out[k])] for k in outs],
                         'outs': outs, 'ins': ins,
